@@ -37,6 +37,28 @@ fn get_string_value(
         .ok_or_else(|| tera::Error::msg(format!("Missing required parameter '{}'", key)))
 }
 
+/// Read an optional length-like argument: absent means `default`; Tera arithmetic and filters produce floats,
+/// so an integral float counts as that integer; anything else is an error instead of being silently ignored
+fn get_length_arg(
+    args: &std::collections::HashMap<String, Value>,
+    key: &str,
+) -> Result<Option<usize>, tera::Error> {
+    match args.get(key) {
+        None => Ok(None),
+        Some(v) => v
+            .as_u64()
+            .or_else(|| {
+                v.as_f64()
+                    .filter(|f| f.fract() == 0.0 && *f >= 0.0 && *f <= u32::MAX as f64)
+                    .map(|f| f as u64)
+            })
+            .map(|n| Some(n as usize))
+            .ok_or_else(|| {
+                tera::Error::msg(format!("'{key}' must be a non-negative integer, got {v}"))
+            }),
+    }
+}
+
 /// Register custom Tera functions
 pub fn register_functions(tera: &mut Tera) -> Result<(), ZervError> {
     tera.register_function("sanitize", Box::new(sanitize_function));
@@ -61,7 +83,7 @@ fn sanitize_function(
     // Check for custom parameters
     let separator = args.get("separator").and_then(|v| v.as_str());
     let keep_zeros = args.get("keep_zeros").and_then(|v| v.as_bool());
-    let max_length = args.get("max_length").and_then(|v| v.as_u64());
+    let max_length = get_length_arg(args, "max_length")?.map(|n| n as u64);
     let lowercase = args.get("lowercase").and_then(|v| v.as_bool());
 
     let has_custom_params =
@@ -111,7 +133,7 @@ fn sanitize_function(
 fn hash_function(args: &std::collections::HashMap<String, Value>) -> Result<Value, tera::Error> {
     let input = get_string_value(args, "value")?;
 
-    let length = args.get("length").and_then(|v| v.as_u64()).unwrap_or(7) as usize;
+    let length = get_length_arg(args, "length")?.unwrap_or(7);
 
     let mut hasher = DefaultHasher::new();
     input.hash(&mut hasher);
@@ -133,7 +155,7 @@ fn hash_int_function(
 ) -> Result<Value, tera::Error> {
     let input = get_string_value(args, "value")?;
 
-    let length = args.get("length").and_then(|v| v.as_u64()).unwrap_or(7) as usize;
+    let length = get_length_arg(args, "length")?.unwrap_or(7);
 
     let allow_leading_zero = args
         .get("allow_leading_zero")
@@ -174,7 +196,7 @@ fn prefix_at_char_boundary(s: &str, max_len: usize) -> &str {
 fn prefix_function(args: &std::collections::HashMap<String, Value>) -> Result<Value, tera::Error> {
     let input = get_string_value(args, "value")?;
 
-    let length = args.get("length").and_then(|v| v.as_u64()).unwrap_or(10) as usize;
+    let length = get_length_arg(args, "length")?.unwrap_or(10);
 
     let prefix = prefix_at_char_boundary(&input, length);
 
